@@ -552,7 +552,7 @@ _more("C02", "Recipient selection of a publish: tell_subscribers() (loop contrac
 PROPS["C06"]["level_text"] += (" m_thpool_free(): a started pool is waited for (all queued tasks / only the tasks in progress, as asked) before the condition variable, the mutex, the task queue and the "
                                "thread list are given up, each initialised stage is undone exactly once; m_thpool_clear() drops the pending tasks under the mutex.")
 PROPS["C06"]["not_decided"] = ["interleaving semantics beyond the lock-discipline argument; deadlock freedom / lost wake-ups (liveness)", "m_thpool_new()/add_threads() (creation) not under contract",
-                               "detached pools are a recorded known finding", "the running_tasks counter is updated outside the mutex (statistics only; not covered by an obligation)"]
+                               "detached pools are a recorded known finding"]
 PROPS["C13"]["level_text"] += (" m_mod_set_batch_timeout(): the old batch timer is removed, the new one is an internal high-priority timer with exactly the configured period keyed by the batch "
                                "record, time-only batching uses the sentinel size, and timeout 0 leaves no batching behind.")
 PROPS["C13"]["not_decided"] = ["that the kernel timer fires after the configured time"]
@@ -611,7 +611,7 @@ U("thpool.new", src="units/thpool_unit.c", harness="h_pool_new", enforce="m_thpo
 PROPS["C06"]["level_text"] += (" add_threads() (loop contract, any number of workers): every created worker runs the pool loop of this pool and is recorded in the thread list exactly once, creation stops "
                                "at the first failure, which leaves no record; m_thpool_new(): a pool comes back fully built with its configured size and flags (workers spawned unless lazy) or is torn down and not returned.")
 PROPS["C06"]["not_decided"] = ["interleaving semantics beyond the lock-discipline argument; deadlock freedom / lost wake-ups (liveness)",
-                               "detached pools are a recorded known finding", "the running_tasks counter is updated outside the mutex (statistics only; not covered by an obligation)",
+                               "detached pools are a recorded known finding",
                                "allocation failure of a thread slot in add_threads (passed on to pthread_create unchecked)"]
 U("ps.unsubscribe", src="units/ps_unit.c", harness="h_unsubscribe", enforce="m_mod_ps_unsubscribe", defines=["V_UNSUB_UNIT"], logctx="CORE",
   replace=["m_ctx", "m_mod_is", "fetch_ms", "m_map_remove", "m_map_len", "m_map_free"], props=["C09", "C15", "C18", "C04"], contract_files=SUBSC, native=False, timeout=300, min_obligations=20)
